@@ -167,12 +167,22 @@ fn check0(c: &Case, st: &mut Stats) -> Check {
             IpAddr::V4(d) => d.octets(),
             _ => vfail!("harness: C14 is restricted to IPv4"),
         };
+        // "exactly one answer per question": a one-to-one matching of answers and questions by owner
+        // name (names compare case-insensitively); the statement does not fix the order of the answers
+        let names = |ls: &Vec<Vec<u8>>| ls.iter().map(|l| String::from_utf8_lossy(l).to_string()).collect::<Vec<_>>();
+        let same = |a: &Vec<Vec<u8>>, b: &Vec<Vec<u8>>| a.len() == b.len() && a.iter().zip(b.iter()).all(|(x, y)| x.eq_ignore_ascii_case(y));
+        let mut used = vec![false; m.answers.len()];
         for (i, rr) in m.answers.iter().enumerate() {
-            let ql: Vec<Vec<u8>> = q.questions[i].labels.iter().map(|l| l.0.clone()).collect();
-            vensure!(rr.name == ql, "answer {} is owned by {:?}, question {} asked for {:?}", i, rr.name.iter().map(|l| String::from_utf8_lossy(l).to_string()).collect::<Vec<_>>(), i, ql.iter().map(|l| String::from_utf8_lossy(l).to_string()).collect::<Vec<_>>());
             vensure!(rr.typ == 1 && rr.class == 1, "answer {} has type {} class {}", i, rr.typ, rr.class);
             vensure!(rr.rdata.len() == 4, "answer {} has RDLENGTH {}", i, rr.rdata.len());
             vensure!(rr.rdata == dst, "answer {} RDATA {:?} is not the address the query was sent to {:?}", i, rr.rdata, dst);
+        }
+        for (qi, qq) in q.questions.iter().enumerate() {
+            let ql: Vec<Vec<u8>> = qq.labels.iter().map(|l| l.0.clone()).collect();
+            match (0..m.answers.len()).find(|ai| !used[*ai] && same(&m.answers[*ai].name, &ql)) {
+                Some(ai) => used[ai] = true,
+                None => vfail!("no answer of its own for question {} ({:?}): the answers are owned by {:?}", qi, names(&ql), m.answers.iter().map(|r| names(&r.name)).collect::<Vec<_>>()),
+            }
         }
         vensure!(m.authority.is_empty() && m.additional.is_empty() || true, "");
         Ok(())
